@@ -267,7 +267,8 @@ def call(H, op, g, rng=None):
                 if op["fmt"] == 1:
                     arg = [N(it["id"]) for it in op["items"]]
                 else:
-                    arg = [(N(it["id"]), A(it["a"], "n")) for it in op["items"]]
+                    arg = [(N(it["id"]), ([5] if (op["b4"] and it is op["items"][-1]) else
+                                         list(A(it["a"], "n").items()) if op["b2"] else A(it["a"], "n"))) for it in op["items"]]
                 H.add_nodes_from(present_ids(arg, rng) if op["fmt"] == 1 else (arg if rng.random() < 0.6 else iter(arg)),
                                  **A(op["a"], "n"))
             elif name == "remove_node":
